@@ -26,11 +26,111 @@ def run_property(prop, repo_root="/repo", timeout=10, verbose=False, scope=None)
         if c.assumed:
             continue
         rep = verify_function(repo, table, c, scope=scope)
+        if rep.unsupported:
+            rep.obligations = []      # partial exploration: nothing of it is reported as checked
         reports.append(rep)
     allob = [ob for rep in reports for ob in rep.obligations]
     t0 = time.time()
-    res = discharge(allob, timeout=timeout)
+    # canaries only have to *fail*: a short budget is enough (a timeout is a failure to verify)
+    real = [i for i, ob in enumerate(allob) if not ob.canary]
+    can = [i for i, ob in enumerate(allob) if ob.canary]
+    res = [None] * len(allob)
+    for idxs, tmo in ((real, timeout), (can, 3)):
+        for i, r in zip(idxs, discharge([allob[i] for i in idxs], timeout=tmo)):
+            res[i] = r
     return reports, allob, res, time.time() - t0
+
+
+def declared_canaries(prop):
+    load_contracts(prop)
+    out = []
+    for cls in ALL_CONTRACTS.get(prop, []):
+        if not cls.assumed:
+            out.extend(cls.canaries.keys())
+    return out
+
+
+def property_meta(prop):
+    mod = importlib.import_module("contracts." + prop)
+    return dict(getattr(mod, "META", {}))
+
+
+def concretize(v, model):
+    """symbolic input value -> JSON-able concrete value under a z3 model"""
+    import z3
+    from fractions import Fraction
+    from .values import NdArr, Obj, SList, is_sym
+    if isinstance(v, NdArr):
+        if not all(isinstance(s, int) for s in v.shape):
+            shape = [concretize(s, model) for s in v.shape]
+        else:
+            shape = list(v.shape)
+        import itertools
+        def cell(idx):
+            if v.cell.nan is not None and z3.is_true(model.eval(v.isnan(*idx), model_completion=True)):
+                return "nan"
+            return concretize(v.get(*idx), model)
+        def build(prefix, dims):
+            if not dims:
+                return cell(prefix)
+            return [build(prefix + [i], dims[1:]) for i in range(dims[0])]
+        return dict(ndarray=build([], shape), shape=shape, kind=v.kind)
+    if isinstance(v, Obj):
+        return dict(obj=v.tag, fields={k: concretize(x, model) for k, x in v.fields.items() if not k.startswith("$")})
+    if is_sym(v):
+        r = model.eval(v, model_completion=True)
+        if z3.is_int_value(r):
+            return r.as_long()
+        if z3.is_rational_value(r):
+            f = Fraction(r.numerator_as_long(), r.denominator_as_long())
+            return float(f) if f.denominator != 1 else int(f)
+        if z3.is_true(r):
+            return True
+        if z3.is_false(r):
+            return False
+        if z3.is_string_value(r):
+            return r.as_string()
+        if z3.is_algebraic_value(r):
+            return float(r.approx(10).as_fraction())
+        return str(r)
+    if isinstance(v, Fraction):
+        return float(v)
+    if isinstance(v, (list, tuple)):
+        return [concretize(x, model) for x in v]
+    if isinstance(v, dict):
+        return {str(k): concretize(x, model) for k, x in v.items()}
+    if isinstance(v, (int, float, str, bool)) or v is None:
+        return v
+    return repr(v)
+
+
+def finite_scope_search(prop, oid, repo_root, per_query_ms=5000):
+    """DESIGN 5.3 step 2: the same executor on the same function with concrete small sizes."""
+    import z3
+    repo = Repo(repo_root)
+    table = load_contracts(prop)
+    # the contract whose function name appears in the obligation id
+    cands = [c for c in table.values() if not c.assumed and ("." + c.key.split("::")[1] + ".") in (oid + ".")
+             or ("." + c.key.split("::")[1] + "#") in oid]
+    for c in cands:
+        for scope in getattr(c, "scopes", []):
+            rep = verify_function(repo, table, c, scope=dict(scope))
+            for ob in rep.obligations:
+                if ob.canary:
+                    continue
+                s = z3.Solver()
+                s.set("timeout", per_query_ms)
+                for x in ob.axioms:
+                    s.add(x)
+                for x in ob.pc:
+                    s.add(x)
+                s.add(z3.Not(ob.goal))
+                if s.check() == z3.sat:
+                    m = s.model()
+                    inputs = concretize(getattr(ob, "inputs", None), m)
+                    return dict(function=c.key, scope=scope, violated=ob.oid, where=ob.where, inputs=inputs,
+                                variant=repr(getattr(ob, "variant", None)))
+    return None
 
 
 def aggregate(allob, res):
